@@ -104,3 +104,15 @@ claim("C03", "other",
       "Unit.__pow__ interns on them); Decimal context rounding outside.",
       "shadow-symbolic execution of real operators; z3 path enumeration + domain confinement",
       "DESIGN.md 4/C03", "symnum")
+
+claim("C18", "other",
+      "Real LogarithmicUnit.level / Level.quantify / == run on symbolic magnitudes with ln/exp uninterpreted "
+      "(instance axioms exp(ln t)=t, ln(exp s)=s, strict monotonicity). For every logarithm family x reference "
+      "x quantity unit z3 decides for ALL x>0 and l in [-200,200]: the logarithm's argument is quantity/"
+      "reference, magnitude == (k/prefix)*ln(arg)/ln(base) with k from physics (not from "
+      "ROOT_POWER_DIMENSIONS), strict monotonicity, both round trips in log space (factor within 2^-46), "
+      "and that a level equals the quantity it denotes in both argument orders.",
+      "ln/exp are uninterpreted: what is proved is the algebraic structure of the formulas, not the numeric "
+      "accuracy of math.log/**; log-space to linear-space step is the calculus bound |e^d-1|<=2|d|; references "
+      "are concrete (the library hashes them).",
+      "shadow-symbolic execution with UF ln/exp + z3", "DESIGN.md 4/C18", "symnum")
